@@ -29,8 +29,8 @@ ASSUMPTIONS = ["pysam's BGZFile.seek/readline is trusted to read back virtual of
 
 
 def plan(tier):
-    return {"cases": 800 if tier == "quick" else 2500, "shards": 16,
-            "shard_budget_s": 300 if tier == "quick" else 1800}
+    return {"cases": 800 if tier == "quick" else 10000, "shards": 16,
+            "shard_budget_s": 300 if tier == "quick" else 3300}
 
 
 def required(tier):
